@@ -47,7 +47,7 @@ pub fn slices() -> Vec<Slice> {
     v.push(Slice {
         name: "arith-local",
         prelude: vec![],
-        wrap: Some((vec!["a", "b"], vec![int(7), int_lit(-3)])),
+        wrap: Some((vec!["a", "b"], vec![int(2), int_lit(-3)])),
         grammar: Grammar {
             atoms: vec![id("a"), id("b"), int(0), int(2), int(10)],
             infix: ops.clone(),
@@ -63,7 +63,7 @@ pub fn slices() -> Vec<Slice> {
     // arith-global: the same over global variables (generic opcodes)
     v.push(Slice {
         name: "arith-global",
-        prelude: vec![let_("a", int(7)), let_("b", int_lit(-3))],
+        prelude: vec![let_("a", int(2)), let_("b", int_lit(-3))],
         wrap: None,
         grammar: Grammar {
             atoms: vec![id("a"), id("b"), int(0), int(2), int(10)],
